@@ -1,5 +1,324 @@
-from . import mir
+"""C12 — OTLP export delivers every accepted event however batches are split.
+
+Decided: the send loop removes exactly the request it just got acknowledged (same end of the queue, once
+per iteration, only on the Ok edge), a failure returns the channel with that request still in it, Ok only
+when no request is left; the request grouping in Channel::push; one receiver per configured signal; the
+connection is handed back only after a successful request; HTTP 2xx / gRPC status 0 predicates; a transport
+error is retryable."""
+import re
+
+from . import common, mir
+from .mir import o_str
+
+SEND = "emit_otlp::client::OtlpTransport::<R>::send::{closure#0}"
+
+
+def _requests_field(b, o):
+    r, names = mir.o_field_path(o)
+    return names[-1:] == ["requests"]
 
 
 def ok_only_when_drained(P):
-    raise mir.AnchorMissing("C12 rules not built yet")
+    b = P.body(SEND)
+    peek = [c for c in b.calls(normal_only=True) if c.callee.get("name") in ("last", "first", "get", "is_empty", "len", "last_mut", "first_mut")
+            and _requests_field(b, b.origin(c.args[0], through_calls=("deref", "deref_mut", "as_slice")))]
+    if len(peek) != 1:
+        return False, "expected one peek at channel.requests in the send loop, found %d" % len(peek), [], b.span
+    oks = [bb for bb, j, s in b.statements(normal_only=True) if s["k"] == "assign" and s["place"]["l"] == 0 and "p" not in s["place"]
+           and s["rv"]["k"] == "agg" and s["rv"].get("variant") == "Ok"]
+    if not oks:
+        return False, "send never returns Ok", [], b.span
+    for bb in oks:
+        g = [(b.switch_origin(gbb), list(vals)) for gbb, vals, n in b.guards_of(bb)]
+        if not any(so[0] == "discr" and so[1][0] == "call" and so[1][1].bb == peek[0].bb and "1" not in vals for so, vals in g):
+            return False, ("send returns Ok on a path where a request may still be queued (the Ok is not on the `no request "
+                           "left` edge of the peek)"), [], b.span
+    return True, "", [peek[0].loc]
+
+
+def run(chk):
+    P = mir.Program("K1")
+    chk.use_program(P)
+    chk.explain("Rules over built MIR of emit_otlp::client (async bodies before coroutine lowering): R1 in OtlpTransport::send "
+                "each iteration peeks one request, awaits send_batch, and removes exactly one request with the operation "
+                "matching the peeked end (last<->pop), only on the Ok edge; the Err edge returns the channel untouched; Ok "
+                "only on the empty edge; R2 Channel::push adds the event to exactly one request and counts it once; R3 one "
+                "exec per configured signal with its own transport; R4 the cached connection is taken before and handed "
+                "back only after a successful request, inside the request timeout; R5 success is HTTP status in [200,300) / "
+                "grpc-status 0 (value sets computed from the comparison constants); R6 a transport error maps to a "
+                "retryable BatchError.")
+    chk.trust("rustc nightly; Vec::pop/last, Option::take contracts")
+    chk.assume("network behaviour, back-off timing and collector behaviour are not decided")
+    chk.exhaustive = True
+
+    def r1():
+        b = P.body(SEND)
+        sb = [c for c in b.calls(normal_only=True) if (c.callee.get("path") or "").endswith("::send_batch")]
+        if len(sb) != 1:
+            return False, "expected one send_batch call", [], b.span
+        s = sb[0]
+        if not b.in_cycle(s.bb):
+            return False, "send_batch is not in a loop over the requests", [], s.loc
+        # what is sent
+        ro = b.origin(s.args[3])
+        peek = None
+        x = ro
+        while x[0] in ("field", "downcast", "index"):
+            x = x[1]
+        if x[0] == "call":
+            peek = x[1]
+        if peek is None or not _requests_field(b, b.origin(peek.args[0], through_calls=("deref", "deref_mut", "as_slice"))):
+            return False, "the request sent is %s, not one peeked from channel.requests" % o_str(ro), [], s.loc
+        pk = peek.callee.get("name")
+        rm = [c for c in b.calls(normal_only=True) if c.callee.get("name") in ("pop", "remove", "swap_remove", "drain", "truncate", "clear", "pop_front", "pop_back")
+              and _requests_field(b, b.origin(c.args[0], through_calls=("deref", "deref_mut")))]
+        if len(rm) != 1:
+            return False, ("requests are removed from the channel at %d sites (%s); exactly one removal per acknowledged request "
+                           "is needed — a second one discards an unsent request" % (len(rm), [c.loc for c in rm])), [], (rm[1].loc if len(rm) > 1 else b.span)
+        r = rm[0]
+        pair = {("last", "pop"), ("last_mut", "pop"), ("first", "remove"), ("first_mut", "remove")}
+        if (pk, r.callee.get("name")) not in pair:
+            return False, ("the loop sends `requests.%s()` but acknowledges with `requests.%s()`: the request removed is not the "
+                           "one that was sent" % (pk, r.callee.get("name"))), [], r.loc
+        if r.callee.get("name") == "remove" and mir.o_const_value(b.origin(r.args[1])) != 0:
+            return False, "remove(%s) does not remove the first request" % o_str(b.origin(r.args[1])), [], r.loc
+        # removal only on the Ok edge of the awaited send_batch
+        ok_edge = False
+        for gbb, vals, n in b.guards_of(r.bb):
+            so = b.switch_origin(gbb)
+            if so[0] == "discr":
+                src = common.await_source(b, so[1])
+                if src is not None and src[0] == "call" and src[1].bb == s.bb:
+                    if "1" in list(vals):
+                        return False, "the request is removed on the Err edge of send_batch: a failed request is dropped instead of retried", [], r.loc
+                    if list(vals) == ["0"]:
+                        ok_edge = True
+        if not ok_edge:
+            return False, "the request is removed without send_batch having succeeded", [], r.loc
+        # once per iteration: no path from the loop header back to itself passes the removal twice — single site not in an inner cycle
+        hdrs = [t for sfrom, t in b.back_edges() if r.bb in b.loop_body(t) and s.bb in b.loop_body(t)]
+        if not hdrs:
+            return False, "removal is outside the send loop", [], r.loc
+        inner = [t for sfrom, t in b.back_edges() if r.bb in b.loop_body(t) and s.bb not in b.loop_body(t)]
+        if inner:
+            return False, "the removal sits in an inner loop", [], r.loc
+        # Err edge returns the channel
+        errs = [bb for bb, j, st in b.statements(normal_only=True) if st["k"] == "assign" and st["place"]["l"] == 0 and "p" not in st["place"]
+                and st["rv"]["k"] == "agg" and st["rv"].get("variant") == "Err"]
+        for bb in errs:
+            eo = b.origin(0, _chooser=lambda defs, bb=bb: [d for d in defs if d[0] == bb][0] if [d for d in defs if d[0] == bb] else None)
+            rr = common.roots(eo)
+            if ("capture", "channel") not in rr and ("param", 4) not in rr and not any(k == "local" for k, v in rr):
+                return False, "the error returned does not carry the channel (its remaining requests) back for retry", [], b.span
+        return True, "", [peek.loc, s.loc, r.loc]
+    chk.ob("C12.R1:send-loop", "each acknowledged request is removed exactly once, from the end it was peeked at; a failed one stays", r1)
+    chk.ob("C12.R1:ok-when-drained", "Ok(()) only when no request is left", lambda: ok_only_when_drained(P))
+
+    def err_keeps_channel():
+        b = P.body(SEND)
+        mr = [c for c in b.calls(normal_only=True) if c.callee.get("name") == "map_retryable"]
+        if len(mr) != 1:
+            return False, "expected the failure to be mapped with map_retryable", [], b.span
+        clo = b.origin(mr[0].args[1])
+        if clo[0] != "agg" or clo[1].get("ak") != "closure":
+            return False, "map_retryable argument is not a closure", [], mr[0].loc
+        caps = dict(zip(clo[1]["fields"], clo[2]))
+        if "channel" not in caps:
+            return False, "the retry closure does not capture the channel", [], mr[0].loc
+        cb = P.body(clo[1]["def"])
+        # r.map(|_| channel): Some stays Some, None stays None
+        mp = [c for c in cb.calls(normal_only=True) if c.callee.get("name") == "map"]
+        r = cb.origin(0)
+        if not (mp and r[0] == "call" and r[1].bb == mp[0].bb and mir.o_is_param(cb.origin(mp[0].args[0]), idx=2)):
+            return False, "the retryability of the failure is not preserved (closure returns %s)" % o_str(r), [], cb.span
+        return True, "", [mr[0].loc]
+    chk.ob("C12.R1:err-keeps-channel", "a retryable failure hands the channel back; a permanent one stays permanent", err_keeps_channel)
+
+    def r2():
+        i = [i for i in P.impls if i.get("trait") == "emit_batcher::Channel" and i["self_ty"] == "emit_otlp::client::Channel"]
+        if not i:
+            raise mir.AnchorMissing("impl Channel for otlp Channel")
+        items = {it["name"]: it["key"] for it in i[0]["items"]}
+        b = P.body(items["push"])
+        ps = [c for c in b.calls(normal_only=True) if (c.callee.get("path") or "").endswith("EncodedScopeItems::push")]
+        if not ps:
+            return False, "push never adds the event to a request", [], b.span
+        cnt = b.count_on_paths({c.bb for c in ps})
+        if cnt != (1, 1):
+            return False, "the event is added to a request %s times on some path (must be exactly once)" % (cnt,), [], ps[0].loc
+        for c in ps:
+            r, names = mir.o_field_path(b.origin(c.args[1]))
+            if names[-1:] != ["event"]:
+                return False, "what is pushed is %s, not item.event" % o_str(b.origin(c.args[1])), [], c.loc
+        incs = []
+        for bb, j, s in b.statements(normal_only=True):
+            if s["k"] == "assign" and "p" in s["place"] and [p.get("n") for p in s["place"]["p"] if isinstance(p, dict) and "f" in p] == ["total_items"]:
+                incs.append(bb)
+        if len(incs) != 1 or b.count_on_paths(set(incs)) != (1, 1):
+            return False, "total_items is not incremented exactly once per push", [], b.span
+        # a new request is pushed onto self.requests only together with the event
+        np_ = [c for c in b.calls(normal_only=True) if c.callee.get("name") == "push" and "Vec" in (c.callee.get("full") or "")
+               and _requests_field(b, b.origin(c.args[0], through_calls=("deref_mut",)))]
+        if len(np_) != 1:
+            return False, "expected one place where a new request is started", [], b.span
+        return True, "", [c.loc for c in ps]
+    chk.ob("C12.R2:Channel::push", "every accepted event lands in exactly one request and is counted once", r2)
+
+    def r3():
+        # every signal configured on the builder gets its own receiver running with its own transport
+        spawn = [b for b in P.by_crate["emit_otlp"] if b.calls_to(path_re=r"emit_batcher::Receiver::<.*>::exec$")]
+        if not spawn:
+            raise mir.AnchorMissing("the function that runs the receivers (Receiver::exec call sites)")
+        sites = []
+        for b in spawn:
+            for c in b.calls_to(path_re=r"emit_batcher::Receiver::<.*>::exec$"):
+                sites.append((b, c))
+        if len(sites) != 3:
+            return False, "expected one Receiver::exec per signal (logs, traces, metrics), found %d" % len(sites), [], spawn[0].span
+        recvs = set()
+        for b, c in sites:
+            ro = b.origin(c.args[0])
+            recvs.add(o_str(ro))
+            clo = b.origin(c.args[2])
+            if clo[0] != "agg" or clo[1].get("ak") != "closure":
+                return False, "on_batch is not a closure", [], c.loc
+            cb = P.body(clo[1]["def"])
+            sends = [x for y in [cb] + P.closures_of(cb) for x in y.calls(normal_only=True) if (x.callee.get("path") or "").endswith("OtlpTransport::<R>::send")]
+            if len(sends) != 1:
+                return False, "the batch processor of a signal does not send through exactly one transport", [], cb.span
+        if len(recvs) != 3:
+            return False, "two signals share a receiver: %s" % sorted(recvs), [], sites[0][1].loc
+        return True, "", [c.loc for b, c in sites]
+    chk.ob("C12.R3:one-receiver-per-signal", "each of the three signals has its own receiver and transport (an outage of one does not stop the others)", r3)
+
+    def r4():
+        key = None
+        for k in P.bodies:
+            if k.startswith("emit_otlp::client::http::HttpConnection::send::{closure#0}::{closure#0}"):
+                if P.bodies[k].calls_to(path_re=r"HttpConnection::unpoison$"):
+                    key = k
+        if key is None:
+            raise mir.AnchorMissing("the request block of HttpConnection::send (unpoison call)")
+        b = P.body(key)
+        up = b.calls_to(path_re=r"HttpConnection::unpoison$")
+        po = b.calls_to(path_re=r"HttpConnection::poison$")
+        sr = [c for c in b.calls(normal_only=True) if c.callee.get("path") == "emit_otlp::client::http::send_request"]
+        if len(up) != 1 or len(po) != 1 or len(sr) != 1:
+            return False, "expected one poison, one send_request and one unpoison (found %d/%d/%d)" % (len(po), len(sr), len(up)), [], b.span
+        u, p, s = up[0], po[0], sr[0]
+        if not b.dominates(p.bb, s.bb):
+            return False, "the cached connection is not taken before the request", [], p.loc
+        ok = False
+        for gbb, vals, n in b.guards_of(u.bb):
+            so = b.switch_origin(gbb)
+            if so[0] == "discr" and mir.o_is_call(so[1], name="branch"):
+                src = common.await_source(b, b.origin(so[1][1].args[0]))
+                if src is not None and src[0] == "call" and src[1].bb == s.bb and list(vals) == ["0"]:
+                    ok = True
+        if not ok:
+            return False, ("the connection is handed back (unpoison) without the request on it having succeeded: after a "
+                           "connection error the dead connection is cached and every retry fails on it instead of reconnecting"), [], u.loc
+        if not common.has_root(b.origin(u.args[1]), "callsite", p.bb) and not b.origin(u.args[1])[0] in ("phi", "local"):
+            return False, "what is handed back is %s" % o_str(b.origin(u.args[1])), [], u.loc
+        # poison is Option::take under the lock
+        pb = P.body("emit_otlp::client::http::HttpConnection::poison")
+        tk = [c for c in pb.calls(normal_only=True) if c.callee.get("name") == "take"]
+        lk = [c for c in pb.calls(normal_only=True) if c.callee.get("name") == "lock"]
+        if len(tk) != 1 or len(lk) != 1:
+            return False, "poison() must take() the cached sender under its lock", [], pb.span
+        # the whole request runs inside tokio::time::timeout
+        outer = P.body("emit_otlp::client::http::HttpConnection::send::{closure#0}")
+        to = [c for c in outer.calls(normal_only=True) if c.callee.get("name") == "timeout" and "tokio::time" in (c.callee.get("path") or "")]
+        if len(to) != 1 or not mir.o_is_param(outer.origin(to[0].args[0]), name="timeout") and not common.roots(outer.origin(to[0].args[0])):
+            return False, "the request is not bounded by tokio::time::timeout", [], outer.span
+        return True, "", [p.loc, s.loc, u.loc]
+    chk.ob("C12.R4:connection-poisoning", "the cached connection is taken for the request and put back only after the request succeeded, inside the timeout", r4)
+
+    def status_sets():
+        root = "emit_otlp::client::OtlpTransportBuilder::build"
+        http = grpc = None
+        for k, b in P.bodies.items():
+            if not k.startswith(root + "::"):
+                continue
+            names = {c.callee.get("name") for c in b.calls(normal_only=True)}
+            if "http_status" in names:
+                http = b
+            if "stream_payload" in names:
+                grpc = b
+        if http is None or grpc is None:
+            raise mir.AnchorMissing("the HTTP / gRPC response closures in OtlpTransportBuilder::build")
+        out = []
+        for b, what, want in ((http, "HTTP", set(range(200, 300))), (grpc, "gRPC", {0})):
+            oks = [bb for bb, j, s in b.statements(normal_only=True) if s["k"] == "assign" and s["place"]["l"] == 0 and "p" not in s["place"]
+                   and s["rv"]["k"] == "agg" and s["rv"].get("variant") == "Ok"]
+            if not oks:
+                return False, "%s response handler never succeeds" % what, [], b.span
+            accepted = set()
+            universe = range(0, 1024) if what == "HTTP" else range(0, 64)
+            for bb in oks:
+                cons = []
+                for gbb, vals, n in b.guards_of(bb):
+                    so = b.switch_origin(gbb)
+                    if so[0] == "binop" and so[1] in ("Ge", "Gt", "Le", "Lt", "Eq", "Ne"):
+                        k = mir.o_const_value(so[3])
+                        if isinstance(k, int):
+                            cons.append((so[1], k, list(vals) != ["0"]))
+                if not cons:
+                    return False, "%s success is not conditional on the status" % what, [], b.span
+                ops = {"Ge": lambda a, k: a >= k, "Gt": lambda a, k: a > k, "Le": lambda a, k: a <= k, "Lt": lambda a, k: a < k,
+                       "Eq": lambda a, k: a == k, "Ne": lambda a, k: a != k}
+                for v in universe:
+                    if all(ops[o](v, k) == t for o, k, t in cons):
+                        accepted.add(v)
+            exp = {v for v in want if v in universe}
+            if accepted != exp:
+                extra = sorted(accepted - exp)[:5]
+                missing = sorted(exp - accepted)[:5]
+                return False, ("%s responses counted as success: extra %s, missing %s (success must be exactly %s)"
+                               % (what, extra, missing, "200..=299" if what == "HTTP" else "grpc-status 0")), [], b.span
+            out.append("%s: %s" % (what, "200..=299" if what == "HTTP" else "{0}"))
+        return True, "", out
+    chk.ob("C12.R5:status", "a request counts as acknowledged exactly for HTTP 2xx / grpc-status 0", status_sets)
+
+    def r6():
+        key = None
+        for k, b in P.bodies.items():
+            if k.startswith("emit_otlp::client::OtlpTransport::<R>::send_batch") and b.calls_to(path_re=r"HttpConnection::send$"):
+                key = k
+        if key is None:
+            raise mir.AnchorMissing("send_batch body calling HttpConnection::send")
+        b = P.body(key)
+        hs = b.calls_to(path_re=r"HttpConnection::send$")[0]
+        rt = b.calls_to(path_re=r"BatchError::<.*>::retry$")
+        if len(rt) != 1:
+            return False, "a transport failure must map to exactly one BatchError::retry", [], b.span
+        ok = False
+        for gbb, vals, n in b.guards_of(rt[0].bb):
+            so = b.switch_origin(gbb)
+            if so[0] == "discr":
+                src = common.await_source(b, so[1])
+                if src is not None and src[0] == "call" and src[1].bb == hs.bb and list(vals) == ["1"]:
+                    ok = True
+        if not ok:
+            return False, "BatchError::retry is not on the Err edge of the awaited request", [], rt[0].loc
+        # Ok(()) only on the Ok edge
+        oks = [bb for bb, j, s in b.statements(normal_only=True) if s["k"] == "assign" and s["place"]["l"] == 0 and "p" not in s["place"]
+               and s["rv"]["k"] == "agg" and s["rv"].get("variant") == "Ok"]
+        for bb in oks:
+            g = False
+            for gbb, vals, n in b.guards_of(bb):
+                so = b.switch_origin(gbb)
+                if so[0] == "discr":
+                    src = common.await_source(b, so[1])
+                    if src is not None and src[0] == "call" and src[1].bb == hs.bb and list(vals) == ["0"]:
+                        g = True
+            if not g:
+                return False, "send_batch reports success without the request having succeeded", [], b.span
+        return True, "", [hs.loc, rt[0].loc]
+    chk.ob("C12.R6:send_batch", "a failed request is retryable; success only on the request's Ok edge", r6)
+
+    def flush_links():
+        from . import c07
+        return True, "see C07.R5 (flush reaches every signal)", ["C07.R5"]
+    common.arg_agreement_rule(chk, P, "C12", [("emit_otlp", "src/client.rs"), ("emit_otlp", "src/client/http.rs")], 10)
+    return chk
